@@ -109,6 +109,11 @@ CLAIMED.update({
            'OptionBuilder::null / integer (index gets -1 / the position the value received) as single steps over the real GrowableBuffer code.',
            'The other builders (Unknown/Option/Union/List/Tuple and the leaf builders), from_iter and LayoutBuilder are outside. kernel::malloc stubbed (fresh exact-size buffer), resize in [1.5, 16] '
            '(thorough adds (1, 1.5]).', 'DESIGN.md section 3 (C14)', 'SMT bounded model checking of C++ method LLVM IR (llbmc M-harness, z3 FP); native ASan replay'),
+ 'C17': mc('Narrow claim (depth queries only): purelist_depth, minmax_depth, branch_depth and numfields of ListOffsetArray64, ListArray64, RegularArray, IndexedOptionArray64, '
+           'IndexedArray64, ByteMaskedArray and UnmaskedArray executed from their IR over a content whose own answers are arbitrary: a list node is one level deeper than its '
+           'content, an option / indexed node exactly as deep, the branching flag and the field count pass through unchanged.',
+           'Types, forms, Form <-> JSON, type printing / parsing, regularity (computed on forms) and "every element has the promised item type" are outside.', 'DESIGN.md section 9.5',
+           'SMT bounded model checking of C++ method LLVM IR (llbmc node-method harness, opaque content); native replay through the whole library (akrun)'),
  'C18': mc('Partitioned arrays only: (a) IrregularlyPartitionedArray::partitionid_index_at from its IR for every non-decreasing stops vector of <= 4 (thorough 6) '
            'partitions, empty ones included, and every 64-bit position; (b) PartitionedArray::getitem_range(start, stop, step) (regularize_rangeslice + '
            'getitem_range_nowrap) and getitem_at from their IR on an IrregularlyPartitionedArray whose partitions are opaque contents: the virtual calls on the '
@@ -134,7 +139,6 @@ CLAIMED.update({
 NOT_APPLICABLE = {
  'C15': 'io/json.cpp is a rapidjson SAX client; rapidjson headers are absent so the file cannot be compiled or lowered to IR',
  'C16': 'entirely operations/convert.py over _ext, NumPy and pyarrow; _ext cannot be built and symbolic execution stops at every one of those C boundaries',
- 'C17': 'Form/Type JSON and parameters need rapidjson; type strings are std::string building; the datashape parser is a Lark table over regex lexing that builds _ext objects',
  'C20': 'Numba lowering needs _ext arrays to type against and only emits IR inside a Numba compile (Numba API mismatch, _ext absent)',
 }
 PENDING = []
